@@ -68,6 +68,7 @@ def main():
         res['paths_logged'] = len(log)
         res['fails'] = hs.FAILS[:5]
         res['known_hits'] = hs.KNOWN_HITS
+        res['history'] = hs.HIST[-400:] if res['status'] == 'refuted' else []
         keys = set()
         nontrivial = set()
         for r in log:
